@@ -16,7 +16,7 @@ type baseInfo struct {
 	height        int
 	contents      map[uint64]uint64
 	modified      map[uint64]bool
-	byPointer     bool // the tree is a clone that has not been persisted itself: it holds the version's top node by pointer
+	byPointer     bool                  // the tree is a clone that has not been persisted itself: it holds the version's top node by pointer
 	ranges        map[string][2]*uint64 // name -> open bounds given by the parent (nil = unbounded)
 	reach         map[string]bool
 	heightChanged bool // the height differed from the base version's at some point since
